@@ -4,7 +4,7 @@ import random
 from fractions import Fraction as Fr
 
 from harness import common
-from harness.common import Report, evaluate_corr, afflit, boollit, eval_bad_indices, optlit, proof_gate, ptlit, qlit
+from harness.common import Report, report_failure, evaluate_corr, afflit, boollit, eval_bad_indices, optlit, proof_gate, ptlit, qlit
 from harness.pyconv import paint_json, paintlit
 
 IMPORTS = [
@@ -184,6 +184,8 @@ def run(report: Report, n_cases: int):
         report.count(("gt", repr(out)), True)
         report.hist("gettransform.constructor", type(out).__name__)
     evaluate_corr(report, IMPORTS, "Corr.C16", "gettransform", "gt_case", gcases, gmeta, "gt_agree", "gt_agree")
+    run_serialised(report, n_cases, random.Random(report.seed + 2), P, Affine2D)
+    run_otsvg_gradient(report, max(60, n_cases // 6), random.Random(report.seed + 3), P, Affine2D)
 
     # ---- range predicates --------------------------------------------------------------
     cases, meta = [], []
@@ -265,6 +267,126 @@ def run(report: Report, n_cases: int):
     evaluate_corr(report, IMPORTS, "Corr.C16", "radial_apply_transform", "rd_case", rcases, rmeta, "rd_agree", "rd_prop")
     if rmeta:
         report.sample(rmeta[0])
+
+
+def _decode_colr_affine(d):
+    """the affine a COLRv1 transform paint record denotes, read from the dict handed to fontTools' builder
+    (COLR spec: formats 12 transform, 14 translate, 16 scale, 18 scale around centre, 20/22 uniform)"""
+    f = int(d["Format"])
+    if f == 12:
+        return tuple(d["Transform"])
+    if f == 14:
+        return (1, 0, 0, 1, d["dx"], d["dy"])
+    if f in (16, 18, 20, 22):
+        sx = d["scaleX"] if f in (16, 18) else d["scale"]
+        sy = d["scaleY"] if f in (16, 18) else d["scale"]
+        cx, cy = (d["centerX"], d["centerY"]) if f in (18, 22) else (0, 0)
+        return (sx, 0, 0, sy, cx - sx * cx, cy - sy * cy)
+    return None
+
+
+def run_serialised(report, n, rng, P, Affine2D):
+    """what transformed() emits is then serialised by to_ufo_paint: the record must denote the paint's own affine"""
+    from nanoemoji.colors import Color
+
+    palette = [Color(r, g, b, 1.0) for r in range(0, 256) for g in (0,) for b in (0,)]
+    for i in range(n):
+        kind, t = gen_affine(rng)
+        solid = P.PaintSolid(Color(rng.randint(0, 255), 0, 0, Fr(1)))
+        out = P.transformed(Affine2D(*t), P.PaintGlyph(glyph="g", paint=solid))
+        if not P.is_transform(out):
+            continue
+        d = out.to_ufo_paint(palette)
+        got = _decode_colr_affine(d)
+        want = tuple(out.gettransform())
+        report.count(("ser", repr(out)), True)
+        report.hist("serialised.format", int(d["Format"]))
+        if got is None or any(Fr(a) != Fr(b) for a, b in zip(got, want)):
+            report_failure(report, f"serialised_{i}", dict(kind="property", function=type(out).__name__ + ".to_ufo_paint", paint=paint_json(out),
+                                                            record={k: str(v) for k, v in d.items() if k != "Paint"}, denotes=[str(v) for v in (got or ())], paint_affine=[str(v) for v in want]))
+            return
+
+
+def run_otsvg_gradient(report, n, rng, P, Affine2D):
+    """svg._apply_paint: a gradient under transform paints, drawn through an outer (reuse) transform, must get the
+    gradientTransform  V . T . M1 . M2 ... . V^-1  (V = font units -> viewBox), up to the 3 decimals it is written with"""
+    from lxml import etree
+    from nanoemoji import svg as svgmod
+    from nanoemoji.colors import Color
+    from picosvg.geometric_types import Point
+
+    from harness import picture
+
+    def fl(t):
+        return tuple(float(v) for v in t)
+
+    for i in range(n):
+        stops = (P.ColorStop(0.0, Color(255, 0, 0, 1.0)), P.ColorStop(1.0, Color(0, 0, 255, 1.0)))
+        if rng.random() < 0.5:
+            grad = P.PaintRadialGradient(stops=stops, c0=Point(rng.randint(-50, 50), rng.randint(-50, 50)), c1=Point(rng.randint(-50, 50), rng.randint(-50, 50)), r0=0, r1=rng.randint(10, 200))
+        else:
+            grad = P.PaintLinearGradient(stops=stops, p0=Point(rng.randint(-50, 50), 0), p1=Point(rng.randint(60, 200), rng.randint(-40, 40)), p2=Point(rng.randint(-50, 50), rng.randint(60, 200)))
+        ms = []
+        paint = grad
+        for _ in range(rng.randint(1, 2)):
+            m = rng.choice([(rng.choice([0.5, 2.0, 1.5]), 0, 0, rng.choice([0.5, 1.0, 3.0]), 0, 0), (1, 0, 0, 1, rng.randint(-300, 300), rng.randint(-300, 300)),
+                            (0.8, 0.3, -0.3, 0.8, rng.randint(-50, 50), rng.randint(-50, 50)), (1.2, 0, 0.4, 1, 10, -20)])
+            ms.insert(0, m)
+            paint = P.PaintTransform(paint=paint, transform=m)
+        T = rng.choice([(1, 0, 0, 1, 0, 0), (1, 0, 0, 1, rng.randint(-600, 600), rng.randint(-600, 600)), (0.5, 0, 0, 0.5, 100, -40), (0, 1, -1, 0, 30, 60), (1, 0, 0, -1, 0, 500)])
+        s_ = rng.choice([0.1, 0.128, 1.0])
+        V = (s_, 0, 0, -s_, rng.choice([0, 5]), rng.choice([95, 100]))  # font units (y up) -> viewBox (y down)
+        defs, el = etree.Element("defs"), etree.Element("path")
+        try:
+            from nanoemoji.glyph_reuse import GlyphReuseCache
+
+            svgmod._apply_paint(defs, el, paint, Affine2D(*V), svgmod.ReuseCache(0.1, GlyphReuseCache(0.1)), Affine2D(*T))
+        except TypeError:
+            report.notes["otsvg_gradient"] = "svg._apply_paint/ReuseCache signature changed: function-level OT-SVG gradient check skipped"
+            return
+        g = defs[0]
+        G = picture.parse_transform(g.get("gradientTransform")) if g.get("gradientTransform") else (1, 0, 0, 1, 0, 0)
+        acc = fl(T)
+        for m in ms:
+            acc = picture.amul(acc, fl(m))
+        E = picture.amul(fl(V), acc)  # the gradient's own (font-unit) space -> viewBox
+        Einv, Ginv = picture.ainv(E), picture.ainv(G)
+        num = lambda k, dflt=0.0: float(g.get(k, dflt))
+        scale = max(abs(v) for v in E[:4])
+        probs = []
+        if isinstance(grad, P.PaintLinearGradient):
+            p1, p2 = (num("x1"), num("y1")), (num("x2"), num("y2"))
+            d2 = (p2[0] - p1[0]) ** 2 + (p2[1] - p1[1]) ** 2
+            for x in [(0, 0), (100, 0), (0, 100), (37, 81), (-40, 55)]:
+                u = picture.apt(Ginv, x)
+                t_svg = ((u[0] - p1[0]) * (p2[0] - p1[0]) + (u[1] - p1[1]) * (p2[1] - p1[1])) / d2 if d2 else None
+                t_colr = picture._lin_t(tuple(grad.p0), tuple(grad.p1), tuple(grad.p2), picture.apt(Einv, x))
+                if t_svg is None or t_colr is None or abs(t_svg - t_colr) > 0.02 * (1 + abs(t_colr)):
+                    probs.append(f"colour parameter at viewBox point {x}: OT-SVG {t_svg}, paint tree {t_colr}")
+                    break
+        else:
+            import math
+
+            circles = [((num("fx", g.get("cx", 0)), num("fy", g.get("cy", 0))), num("fr", 0.0), tuple(grad.c0), float(grad.r0)),
+                       ((num("cx"), num("cy")), num("r"), tuple(grad.c1), float(grad.r1))]
+            for (c_svg, r_svg, c_colr, r_colr) in circles:
+                for k in range(8):
+                    q = picture.apt(G, (c_svg[0] + r_svg * math.cos(k * math.pi / 4), c_svg[1] + r_svg * math.sin(k * math.pi / 4)))
+                    y = picture.apt(Einv, q)
+                    dist = math.hypot(y[0] - c_colr[0], y[1] - c_colr[1])
+                    # the matrix is written with 3 decimals: up to 0.0005 x coordinate size, seen through E^-1
+                    rnd = 0.002 * (abs(c_svg[0]) + abs(c_svg[1]) + r_svg + 1) * max(abs(v) for v in Einv[:4])
+                    if abs(dist - r_colr) > 0.02 * (1 + r_colr) + rnd:
+                        probs.append(f"circle (centre {c_svg}, radius {r_svg}) of the OT-SVG gradient maps to distance {dist:.3f} from the paint tree's centre {c_colr}, radius {r_colr}")
+                        break
+                if probs:
+                    break
+        report.count(("otsvg-grad", repr(paint), T, V), True)
+        report.hist("otsvg_gradient.kind", type(grad).__name__)
+        if probs:
+            report_failure(report, f"otsvg_gradient_{i}", dict(kind="property", function="svg._apply_paint", paint=paint_json(paint), outer_transform=list(T), font_to_viewbox=list(V),
+                                                                element=etree.tostring(g).decode(), problems=probs))
+            return
 
 
 def main(argv):
